@@ -16,6 +16,8 @@ CLAIMED['C12'] = ('Lean proof over the module-world model (ids, two ordered regi
          'Theorems for every world/tree shape/sharing/assignment history: parameters() has no duplicates, equals first-occurrence de-duplication of the pre-order listing, contains exactly the parameters registered on reachable modules, num_params splits, setattr replaces the registration, train/eval reach exactly the descendants, Sequential order; random module programs with shared and re-assigned attributes are run on the real Module/Sequential and on the model.', '6 C12')
 CLAIMED['C08'] = ('Lean refinement proof: optimizer history model refines the published recursions + correspondence run',
          'For every hyper-parameter setting, parameter count and history over {backward, zero_grad, step, freeze/unfreeze}: each parameter trajectory under SGD (momentum, dampening, Nesterov, weight decay, maximize), Adam, AdamW equals the left fold of the documented update over the effective gradients; frozen parameters fixed; parameters independent. The real optimizers are run on generated histories (several backward per step, steps without zero_grad, frozen parameters) and compared element-wise with the model after every event, plus in-place/dtype/shape flags.', '6 C08')
+CLAIMED['C13'] = ('Lean proof over the BatchNorm/Dropout history model + correspondence run with captured draws',
+         'For every option setting and every history: eval forwards never change the layer state and normalise with the running statistics; a training forward advances the counter once and moves running mean / unbiased variance by the documented factor; closed forms of the exponential and cumulative averages; without tracking the batch statistics are always used; Dropout is the identity in eval, zeroes exactly the draws <= p and scales survivors by 1/(1-p), and its backward is the transpose through the same mask. Real layers are run on generated histories over the option grid; uniform draws are captured so the mask relation is exact.', '6 C13')
 PENDING = {}
 ALL = [f'C{i:02d}' for i in range(1, 21)]
 
